@@ -99,6 +99,31 @@ func run(args []string) error {
 			return err
 		}
 		return os.WriteFile(args[2], out, 0o644)
+	case "batch-keepgoing":
+		// like batch, but a failing command is reported on stdout as "FAILED <n> <error>" and the rest still run
+		f, err := os.Open(args[1])
+		if err != nil {
+			return err
+		}
+		defer f.Close()
+		sc := bufio.NewScanner(f)
+		for n := 0; sc.Scan(); n++ {
+			fs := strings.Fields(sc.Text())
+			if len(fs) == 0 {
+				continue
+			}
+			func() {
+				defer func() {
+					if r := recover(); r != nil {
+						fmt.Printf("FAILED %d panic: %v\n", n, r)
+					}
+				}()
+				if err := run(fs); err != nil {
+					fmt.Printf("FAILED %d %s\n", n, strings.ReplaceAll(err.Error(), "\n", " "))
+				}
+			}()
+		}
+		return nil
 	case "batch":
 		f, err := os.Open(args[1])
 		if err != nil {
